@@ -7,6 +7,7 @@ import Ark.Proofs.GenBridge.Table
 import Ark.Props.C01Refine
 import Ark.Props.C04Hist
 import Ark.Props.C01Rel
+import Ark.Props.C01Xchg
 
 namespace Ark.Props.C01
 open Ark Ark.World
@@ -212,6 +213,55 @@ theorem rel2_copy_rejected : type_of% @Ark.Props.C01Rel.copy_rejected := @Ark.Pr
 
 /-- CopyEntity at world level in a world with relations never fails for a live entity -/
 theorem rel2_copyEntity_rel : type_of% @Ark.Props.C01Rel.copyEntity_rel := @Ark.Props.C01Rel.copyEntity_rel
+
+
+
+/-! ### Exchange with relation components (Props/C01Xchg): world level, machine step, batch -/
+
+/-- **Exchange(e, add, rem, rels) in a world with relations**: for a live entity and the documented preconditions the call never fails on any access path; e then has the components (current \\ rem) ∪ add, added components hold the given values, kept ones keep theirs, added relation components have the targets given, kept ones keep theirs; nobody else changes; the invariant is kept -/
+theorem xchg_exchange_accepted : type_of% @Ark.Props.C01Xchg.exchange_accepted := @Ark.Props.C01Xchg.exchange_accepted
+
+/-- a dead handle is rejected with the world unchanged -/
+theorem xchg_exchange_rejected_dead : type_of% @Ark.Props.C01Xchg.exchange_rejected_dead := @Ark.Props.C01Xchg.exchange_rejected_dead
+
+/-- empty add and rem lists are rejected with the world unchanged -/
+theorem xchg_exchange_rejected_empty : type_of% @Ark.Props.C01Xchg.exchange_rejected_empty := @Ark.Props.C01Xchg.exchange_rejected_empty
+
+/-- adding a present / removing an absent component / naming one twice is rejected with the world unchanged -/
+theorem xchg_exchange_rejected_misfit : type_of% @Ark.Props.C01Xchg.exchange_rejected_misfit := @Ark.Props.C01Xchg.exchange_rejected_misfit
+
+/-- on the typed paths unfitting relation targets are rejected with the world unchanged -/
+theorem xchg_exchange_rejected_badRel : type_of% @Ark.Props.C01Xchg.exchange_rejected_badRel := @Ark.Props.C01Xchg.exchange_rejected_badRel
+
+/-- an accepted call was on a live entity with non-empty, distinct, fitting component lists -/
+theorem xchg_exchange_accepted_only_if : type_of% @Ark.Props.C01Xchg.exchange_accepted_only_if := @Ark.Props.C01Xchg.exchange_accepted_only_if
+
+/-- xchg as a step of the relation machine (on top of copy/shrink/filters/queries) keeps the invariant -/
+theorem xchg_xchg_keeps_invariant : type_of% @Ark.Props.C01Xchg.xchg_keeps_invariant := @Ark.Props.C01Xchg.xchg_keeps_invariant
+
+/-- the invariant after every Reset-free history with xchg steps -/
+theorem xchg_reach_inv : type_of% @Ark.Props.C01Xchg.reach_inv := @Ark.Props.C01Xchg.reach_inv
+
+/-- refinement after every such history -/
+theorem xchg_refines : type_of% @Ark.Props.C01Xchg.refines := @Ark.Props.C01Xchg.refines
+
+/-- a handle is alive iff specified -/
+theorem xchg_alive_iff_specified : type_of% @Ark.Props.C01Xchg.alive_iff_specified := @Ark.Props.C01Xchg.alive_iff_specified
+
+/-- a history without xchg is a history of the machine below -/
+theorem xchg_conservative : type_of% @Ark.Props.C01Xchg.conservative := @Ark.Props.C01Xchg.conservative
+
+/-- a step whose precondition fails panics with the world and the machine state unchanged -/
+theorem xchg_xchg_rejected : type_of% @Ark.Props.C01Xchg.xchg_rejected := @Ark.Props.C01Xchg.xchg_rejected
+
+/-- every other step succeeds -/
+theorem xchg_xchg_accepted : type_of% @Ark.Props.C01Xchg.xchg_accepted := @Ark.Props.C01Xchg.xchg_accepted
+
+/-- an xchg step changes no other entity -/
+theorem xchg_xchg_others : type_of% @Ark.Props.C01Xchg.xchg_others := @Ark.Props.C01Xchg.xchg_others
+
+/-- what an xchg step does to the entity's entry -/
+theorem xchg_xchg_effect : type_of% @Ark.Props.C01Xchg.xchg_effect := @Ark.Props.C01Xchg.xchg_effect
 
 
 end Ark.Props.C01
